@@ -371,6 +371,12 @@ pub(crate) fn burn_tag(input: &[u8], inposp: &mut usize) -> Result<(), Error> {
 
 pub(crate) fn burn_key_and_value(input: &[u8], inposp: &mut usize) -> Result<(), Error> {
     verify_char(input, b'"', inposp)?;
+    burn_rest_of_key_and_value(input, inposp)
+}
+
+// from the character after the key's opening quote
+// ending on the character following the value
+pub(crate) fn burn_rest_of_key_and_value(input: &[u8], inposp: &mut usize) -> Result<(), Error> {
     burn_string(input, inposp)?;
     eat_colon_with_whitespace(input, inposp)?;
     burn_value(input, inposp)?;
